@@ -58,6 +58,14 @@ func (env *Env) with(name string, tv TV) *Env {
 		n.vars[k] = v
 	}
 	n.vars[name] = tv
+	if env.shadowable[name] {
+		n.shadowable = make(map[string]bool, len(env.shadowable))
+		for k, v := range env.shadowable {
+			if k != name {
+				n.shadowable[k] = v
+			}
+		}
+	}
 	return &n
 }
 
